@@ -16,7 +16,7 @@ CODES = {1: "error kind differs from the model", 2: "group differs from sort.Sea
 
 
 def case_term(o):
-    err = {"": 0, "RangeSize": 1, "InvalidGroup": 2}[o["err"]]
+    err = {"": 0, "RangeSize": 1, "InvalidGroup": 2}.get(o["err"], 3)
     z = verif.coq_z
     outs = o["outs"] or []
     return ("{| cn := %s; cr1 := %s; cr2 := %s; ck := %d%%positive; cerr := %d; cP := %s; cG := %s; cS := %s; "
@@ -28,6 +28,8 @@ def case_term(o):
 def spec_on_impl(o):
     """The property itself, judged on the implementation's observation alone. Returns None or a reason."""
     n = o["n"]
+    if (o["err"] or "").startswith("panic"):
+        return "size %d makes the constructor panic instead of returning a value or an error (%s)" % (n, o["err"][:120])
     if n < 1 or n > 2 ** 32 + 60:
         return None if o["err"] == "RangeSize" else "size %d outside 1..2^32+60 is not rejected" % n
     if o["err"]:
